@@ -87,6 +87,20 @@ func (t *fnTrans) call(c *ssa.CallCommon, res ssa.Value, pos token.Pos) Val {
 			args = append(append([]Val{}, args...), v.Bnd...)
 		}
 	}
+	if fn == nil && !c.IsInvoke() && key == "" {
+		// dynamic call through a value of a named function type: the type's contract (extern functype:...) if any
+		if k := funcTypeKey(c.Value.Type()); k != "" {
+			if fc, _ := t.eng.contracts.lookupExtern(k, t.callerPkgPath()); fc != nil {
+				key = k
+				for _, ft := range t.eng.funcTypeSpecs() {
+					if ft.key == k {
+						ver, unver := t.eng.funcTypeImpls(ft)
+						t.assumptions[fmt.Sprintf("dynamic call of a %s value: the type contract is assumed; it is an obligation of the %d implementations under contract and NOT checked for: %s", strings.TrimPrefix(k, "functype:"), len(ver), strings.Join(unver, ", "))] = true
+					}
+				}
+			}
+		}
+	}
 	// built-in models
 	if r, ok := t.modelCall(key, fn, args, argTys, resTy, pos); ok {
 		return r
@@ -552,6 +566,7 @@ func (t *fnTrans) lockOp(m Val, acquire bool, key string, pos token.Pos) {
 		for name := range t.vars {
 			t.cur.m["atlock:"+name] = t.get(t.cur, name)
 			t.cur.m["atlock."+ls.Field+":"+name] = t.get(t.cur, name)
+			t.cur.m["atlock."+stName+"."+ls.Field+":"+name] = t.get(t.cur, name)
 		}
 		return
 	}
@@ -559,8 +574,8 @@ func (t *fnTrans) lockOp(m Val, acquire bool, key string, pos token.Pos) {
 	snap := &State{m: map[string]Term{}}
 	for name := range t.vars {
 		// the acquisition of THIS mutex (another mutex may have been taken in between)
-		if _, ok := t.cur.m["atlock."+ls.Field+":"+name]; ok {
-			snap.m[name] = t.get(t.cur, "atlock."+ls.Field+":"+name)
+		if _, ok := t.cur.m["atlock."+stName+"."+ls.Field+":"+name]; ok {
+			snap.m[name] = t.get(t.cur, "atlock."+stName+"."+ls.Field+":"+name)
 		} else {
 			snap.m[name] = t.get(t.cur, "atlock:"+name)
 		}
@@ -588,6 +603,7 @@ func (t *fnTrans) lockOp(m Val, acquire bool, key string, pos token.Pos) {
 	for name := range t.vars {
 		t.cur.m["atunlock:"+name] = t.get(t.cur, name)
 		t.cur.m["atunlock."+ls.Field+":"+name] = t.get(t.cur, name)
+		t.cur.m["atunlock."+stName+"."+ls.Field+":"+name] = t.get(t.cur, name)
 	}
 	// after release other goroutines may change the guarded state
 	havocMaps("_ul")
